@@ -386,4 +386,63 @@ theorem concreteSieve_spec_segOK (cfg : Sieve.Cfg) (f : Sieve.StopFn) (primes : 
     (concreteSieve_spec cfg f primes Kmax hp h32).segOK low seg ↔
       30 ∣ low ∧ 240 ∣ seg ∧ 0 < seg ∧ seg / 30 * 8 < 2 ^ 32 := Iff.rfl
 
+/-! ### the hypotheses are satisfiable, and the contract composes -/
+
+theorem p_nine : Spec.p 9 = 23 := Spec.p_eq_of_count (by norm_num) (by decide)
+
+/-- `primes[0..9]` as `generate_primes` returns it -/
+def exPrimes : Array ℕ := #[0, 2, 3, 5, 7, 11, 13, 17, 19, 23]
+
+theorem exPrimes_ok : ∀ i, 4 ≤ i → i ≤ 9 → exPrimes.getD i 0 = Spec.p i := by
+  intro i h4 h9
+  have : i = 4 ∨ i = 5 ∨ i = 6 ∨ i = 7 ∨ i = 8 ∨ i = 9 := by omega
+  rcases this with rfl | rfl | rfl | rfl | rfl | rfl
+  · rw [Spec.p_four]; rfl
+  · rw [Spec.p_five]; rfl
+  · rw [Spec.p_six]; rfl
+  · rw [Spec.p_seven]; rfl
+  · rw [Spec.p_eight]; rfl
+  · rw [p_nine]; rfl
+
+/-- the hypotheses of `concreteSieve_spec` hold for a real `primes` vector -/
+noncomputable example : SieveSpec (concreteSieve .avx512 .avx512 exPrimes) 9 :=
+  concreteSieve_spec .avx512 .avx512 exPrimes 9 exPrimes_ok (by rw [p_nine]; norm_num)
+
+/-- the fields compose on a concrete history: construct at `low = 480` with `segment_size = 240`, `pre_sieve(c = 4)`,
+    `count(100)`, cross off level 5, `count(7)`, `get_total_count()`, next segment, `pre_sieve(c = 3)`, cross off
+    levels 4 and 5, `count(239)`: every returned value is the `φ`-difference `cnt` -/
+example (cfg : Sieve.Cfg) (f : Sieve.StopFn) :
+    let S := concreteSieve cfg f exPrimes
+    let s0 := S.create 480 240 0
+    let s1 := S.pre s0 4 480 (480 + 240)
+    let s2 := (S.count s1 100).1
+    let s3 := S.cross s2 (Spec.p 5) 5
+    let s4 := (S.count s3 7).1
+    let s5 := S.pre s4 3 (480 + 240) (480 + 240 + 240)
+    let s6 := S.cross (S.cross s5 (Spec.p 4) 4) (Spec.p 5) 5
+    (S.count s1 100).2 = cnt 480 4 100 ∧ (S.count s3 7).2 = cnt 480 5 7 ∧ S.total s4 = cnt 480 5 239 ∧
+      (S.count s6 239).2 = cnt 720 5 239 := by
+  intro S s0 s1 s2 s3 s4 s5 s6
+  obtain ⟨H, hOK⟩ : ∃ H : SieveSpec (concreteSieve cfg f exPrimes) 9,
+      ∀ low seg, H.segOK low seg ↔ 30 ∣ low ∧ 240 ∣ seg ∧ 0 < seg ∧ seg / 30 * 8 < 2 ^ 32 :=
+    ⟨concreteSieve_spec cfg f exPrimes 9 exPrimes_ok (by rw [p_nine]; norm_num), fun _ _ => Iff.rfl⟩
+  have r0 : H.Ready s0 480 9 240 := H.create_ready 480 240 0
+    ((hOK 480 240).mpr ⟨by decide, by decide, by decide, by decide⟩)
+  have g1 : H.Seg s1 480 240 4 9 0 240 := H.pre_seg s0 480 9 240 4 240 r0 (by omega) (by omega) (by omega) le_rfl
+  have g2 : H.Seg s2 480 240 4 9 100 240 := H.count_seg s1 480 240 4 9 0 240 100 g1 (by omega) (by omega)
+  have g3 : H.Seg s3 480 240 5 9 0 240 := H.cross_seg s2 480 240 4 9 100 240 g2 (by omega)
+  have g4 : H.Seg s4 480 240 5 9 7 240 := H.count_seg s3 480 240 5 9 0 240 7 g3 (by omega) (by omega)
+  have r4 : H.Ready s4 (480 + 240) 5 240 := H.next_ready s4 480 5 9 7 240 g4
+  have g5 : H.Seg s5 (480 + 240) 240 3 5 0 240 :=
+    H.pre_seg s4 (480 + 240) 5 240 3 240 r4 le_rfl (by omega) (by omega) le_rfl
+  have g6 : H.Seg s6 (480 + 240) 240 5 5 0 240 :=
+    H.cross_seg _ _ _ 4 _ _ _ (H.cross_seg s5 _ _ 3 _ _ _ g5 (by omega)) (by omega)
+  exact ⟨H.count_val s1 480 240 4 9 0 240 100 g1 (by omega) (by omega),
+    H.count_val s3 480 240 5 9 0 240 7 g3 (by omega) (by omega),
+    H.total_val s4 480 240 5 9 7 240 g4,
+    H.count_val s6 (480 + 240) 240 5 5 0 240 239 g6 (by omega) (by omega)⟩
+
 end Pc.Hard
+
+#print axioms Pc.Hard.concreteSieve_spec
+#print axioms Pc.Hard.specCount_eq_cnt
